@@ -126,16 +126,29 @@ vp_first_of(int level) {
   return base;
 }
 
+#ifdef VP_UKEYS
+static const uint8_t vp_ukeys[2 * VP_MAXF] = {VP_UKEYS};
+#endif
+
 static void
 vp_build_version(void) {
   int f, lvl;
 
   for (f = 0; f < VP_F; f++) {
     f_level[f] = vp_level_of(f);   /* concrete */
+#ifdef VP_UKEYS
+    /* scenario obligations: user keys of the bounds are CONCRETE (smallest, largest per file, in file order);
+       sequences, types and sizes stay symbolic */
+    f_su[f] = vp_ukeys[2 * f];
+    f_lu[f] = vp_ukeys[2 * f + 1];
+    f_st[f] = vp_tag();
+    f_lt[f] = vp_tag();
+#else
     f_su[f] = vp_key();
     f_st[f] = vp_tag();
     f_lu[f] = vp_key();
     f_lt[f] = vp_tag();
+#endif
     f_size[f] = vp_u64();
     VP_ASSUME(f_size[f] <= VP_SIZEMAX);
     VP_ASSUME(ik_cmp(f_su[f], f_st[f], f_lu[f], f_lt[f]) <= 0);
